@@ -55,6 +55,7 @@ def gen_plan(rng, uberjob, rec, ncalls, failing_frac=0.0, exc_kinds=("Exception"
     deps[i] = set of call ids it depends on directly (args, kwargs, nested structures, add_dependency, via literals)."""
     plan = uberjob.Plan()
     calls, deps, failing = [], [], set()
+    pending_lits = []
 
     def mk(i, fail_kind):
         def f(*args, **kwargs):
@@ -96,6 +97,20 @@ def gen_plan(rng, uberjob, rec, ncalls, failing_frac=0.0, exc_kinds=("Exception"
                     kwargs["k%d" % len(kwargs)] = calls[j]
         if rng.random() < 0.3:
             args.append(rng.choice([1, "x", [1, 2], None]))
+        if pending_lits:
+            l_, j_ = pending_lits.pop()
+            args.append(l_)
+            d.add(j_)                # the literal depends on calls[j_], hence so does every call that takes it
+        if calls and rng.random() < 0.15:
+            # ordering routed through TWO adjacent literals that both survive pruning because each is also an argument of
+            # a call: calls[j] -> l1 -> l2 -> (this call takes l2; a later call takes l1)
+            j = rng.randrange(len(calls))
+            l1, l2 = plan.lit("chain-1"), plan.lit("chain-2")
+            plan.add_dependency(calls[j], l1)
+            plan.add_dependency(l1, l2)
+            args.append(l2)
+            pending_lits.append((l1, j))
+            d.add(j)
         c = plan.call(mk(i, fk), *args, **kwargs)
         calls.append(c)
         deps.append(d)
